@@ -19,6 +19,7 @@ import (
 	"verif/lib/gg"
 	"verif/lib/mc"
 	"verif/lib/refgeom"
+	"verif/lib/retain"
 )
 
 func fb(u uint64) float64 { return math.Float64frombits(u) }
@@ -246,6 +247,8 @@ func hasNaN(g orb.Geometry) bool {
 }
 
 // checkAll runs every encoder and decode path on g. It returns the number of decode calls.
+var kept retain.Keeper
+
 func checkAll(c *mc.Ctx, g orb.Geometry, srid int, order binary.ByteOrder, typed bool) int {
 	calls := 0
 	oname := "LE"
@@ -320,12 +323,22 @@ func checkAll(c *mc.Ctx, g orb.Geometry, srid int, order binary.ByteOrder, typed
 			c.Failf("srid", "%s returned SRID %d | %s", path, gotSRID, desc)
 		}
 	}
+	// what earlier calls returned must still be what they returned (no result may alias a reused buffer)
+	if d := kept.Bytes(c.Worker, "bytes from Marshal", enc, desc); d != "" {
+		c.Failf("result-overwritten", "%s | now encoding %s", d, desc)
+	}
 	g1, s1, e1 := ewkb.Unmarshal(append([]byte(nil), enc...))
 	cmp("ewkb.Unmarshal", g1, s1, e1, true)
+	if d := kept.Geometry(c.Worker, "geometry from ewkb.Unmarshal", g1, desc); d != "" {
+		c.Failf("result-overwritten", "%s | now decoding %s", d, desc)
+	}
 	g2, e2 := wkb.Unmarshal(append([]byte(nil), enc...))
 	cmp("wkb.Unmarshal", g2, 0, e2, false)
 	g3, s3, e3 := ewkb.NewDecoder(bytes.NewReader(enc)).Decode()
 	cmp("ewkb.Decoder", g3, s3, e3, true)
+	if d := kept.Geometry(c.Worker, "geometry from ewkb.Decoder", g3, desc); d != "" {
+		c.Failf("result-overwritten", "%s | now decoding %s", d, desc)
+	}
 	g4, e4 := wkb.NewDecoder(bytes.NewReader(enc)).Decode()
 	cmp("wkb.Decoder", g4, 0, e4, false)
 	for _, fr := range framings {
